@@ -406,7 +406,8 @@ fn threads_main(map: &std::collections::HashMap<&str, CaseFn>, cases: &str, out:
         let handles: Vec<_> = (0..n)
             .map(|t| {
                 let (seq, barrier, run) = (&seq, &barrier, &run);
-                s.spawn(move || {
+                // deeply nested inputs are part of the corpora: stack size is not what is studied here
+                std::thread::Builder::new().stack_size(256 << 20).spawn_scoped(s, move || {
                     let mut mismatches = Vec::new();
                     let mut first_round = Vec::new();
                     barrier.wait();
@@ -430,6 +431,7 @@ fn threads_main(map: &std::collections::HashMap<&str, CaseFn>, cases: &str, out:
                     }
                     (mismatches, first_round)
                 })
+                .expect("spawn")
             })
             .collect();
         handles.into_iter().map(|h| h.join().expect("thread")).collect()
